@@ -116,6 +116,17 @@ class Report:
             'trusted_base': self.trusted,
             'notes': self.notes,
         }
+        # what was analysed, instance by instance: distinct (rule, instance) pairs with their verdict and the rule's finding
+        inst = {}
+        for (rule, key, st, d) in self.obls:
+            e = inst.setdefault((rule, key), {'rule': rule, 'instance': key, 'n': 0, 'status': 'discharged', 'finding': d[:200]})
+            e['n'] += 1
+            if st is None and e['status'] == 'discharged':
+                e['status'], e['finding'] = 'undecided', d[:200]
+            elif st is False:
+                e['status'], e['finding'] = 'violated', d[:200]
+        cov['distinct_instances'] = len(inst)
+        cov['instances'] = list(inst.values())[:600]
         cov.update(self.extra)
         ev = {
             'property_id': self.pid,
